@@ -96,9 +96,11 @@ class Conv:
 
 
 def ratio(code_term: Any, ref_term: Any) -> Tuple[Any, Conv]:
+    from . import terms as _TM
+
     c = Conv("fwd")
-    x = c.conv(code_term)
-    y = c.conv(ref_term)
+    x = c.conv(_TM.normalize(code_term))  # (one spelling per value: t.to(dtype=d) == t.to(d), x*1 == x, ...)
+    y = c.conv(_TM.normalize(ref_term))
     try:
         r = sp.simplify(x / y)
     except Exception:
